@@ -112,6 +112,14 @@ Begin == /\ up /\ pc = "idle" /\ i <= Len(Stream)
          /\ Cur \notin dBlk /\ Par(Cur) \in dBlk /\ IsAnc(mFin, Par(Cur))
          /\ pc' = "state"
          /\ UNCHANGED <<durable, up, i, isBest, mFin, hist>>
+\* the node packs the block itself (packer_loop.go proposeAndCommit): built on a stored parent, no finality test - the
+\* packer trusts that it packs on the best block.  (With more than a third of the validators voting COM on two
+\* branches the finalized checkpoint can move to a branch the best block is not on; the node then still packs on
+\* its best block.  Streams may contain such trees: crash consistency is owed for every tree the node accepts.)
+BeginOwn == /\ up /\ pc = "idle" /\ i <= Len(Stream)
+            /\ Cur \notin dBlk /\ Par(Cur) \in dBlk
+            /\ pc' = "state"
+            /\ UNCHANGED <<durable, up, i, isBest, mFin, hist>>
 \* stage.Commit(): the last state write makes the state of the block complete; then bft.Select decides
 WState == /\ up /\ pc = "state"
           /\ dState' = dState \cup {Cur}
@@ -175,7 +183,7 @@ Restart == /\ ~up
               ELSE mFin' = dFin /\ UNCHANGED <<dQ, dFin>>
            /\ UNCHANGED <<dState, dIdx, dBlk, dBest, pc, isBest, hist>>
 
-Next == Skip \/ Begin \/ WState \/ WLogs \/ WIdx \/ WBlk \/ WQ \/ WFin \/ Crash \/ Restart
+Next == Skip \/ Begin \/ BeginOwn \/ WState \/ WLogs \/ WIdx \/ WBlk \/ WQ \/ WFin \/ Crash \/ Restart
 Spec == Init /\ [][Next]_vars
 
 ------------------------------------------------------------------------------------------------------------------
